@@ -7,7 +7,7 @@ import ast
 from fractions import Fraction
 
 from .program import AnalysisIncomplete, Ext, Func, Partial, norm
-from .sym import App, Poly, Rat, Sym
+from .sym import _akey, App, Poly, Rat, Sym
 
 # canonical names of elementwise scalar functions
 UFUNCS = {
@@ -114,7 +114,7 @@ def _lead(d):
     n, _ = d._canon()
     if not n.t:
         return 0
-    return sorted(n.t.items(), key=lambda kv: repr(tuple((repr(a.key()), p) for a, p in kv[0])))[0][1]
+    return sorted(n.t.items(), key=lambda kv: tuple((_akey(a), p) for a, p in kv[0]))[0][1]
 
 
 def _pos_scale(d):
@@ -149,11 +149,17 @@ def neg_cond(c):
     return ('not', c)
 
 
+def _order_key(k):
+    """canonical order of condition keys: by structural hash (the process runs with a fixed hash seed); printing
+    the nested keys instead costs seconds on large kernels"""
+    return hash(k)
+
+
 def cond_key(c):
     if c[0] == 'cmp':
         return ('cmp', c[1], c[2])
     if c[0] in ('and', 'or'):
-        return (c[0],) + tuple(sorted((cond_key(x) for x in c[1:]), key=repr))
+        return (c[0],) + tuple(sorted((cond_key(x) for x in c[1:]), key=_order_key))
     if c[0] == 'not':
         return ('not', cond_key(c[1]))
     if c[0] == 'truth':
@@ -166,7 +172,7 @@ def cond_arg(c):
     if c[0] == 'cmp':
         return ('cmp', c[1], c[3])
     if c[0] in ('and', 'or'):
-        return (c[0],) + tuple(sorted((cond_arg(x) for x in c[1:]), key=lambda t: repr(cond_key_of_arg(t))))
+        return (c[0],) + tuple(sorted((cond_arg(x) for x in c[1:]), key=lambda t: _order_key(cond_key_of_arg(t))))
     if c[0] == 'not':
         return ('not', cond_arg(c[1]))
     if c[0] == 'truth':
@@ -210,7 +216,8 @@ class Kernel:
         self.loops = []
         self.returns = []    # (value, guards)
         self.arrays = {}
-        self.calls = []      # (callee text, args values, guards, node)
+        self.calls = []      # (callee text, args values, guards, node[, loops, keyword values, Func])
+        self.events = []     # ('store', Store) | ('call', call record) in program order
         self.raises = []     # (guards, node)
 
 
@@ -838,11 +845,10 @@ class Interp:
                     return val
             if sub is not None and sub.k.stores:
                 # callee writes arrays: record as call with summary
-                self.k.calls.append((f.qualname, args, list(self.guards), e))
-                for st in sub.k.stores:
-                    if st.arr.init == 'param':
-                        pass
-        self.k.calls.append((f.qualname, args, list(self.guards), e))
+                pass
+        rec = (f.qualname, args, list(self.guards), e, list(self.loops), kws, f)
+        self.k.calls.append(rec)
+        self.k.events.append(('call', rec))
         return Rat.atom(App('call:' + f.qualname, [self.arg_key(a) for a in args] +
                             [self.arg_key(v) for _, v in sorted(kws.items())]))
 
@@ -946,6 +952,8 @@ class Interp:
                 v.name = t.id if t.id not in self.k.arrays else v.name
                 v.var = t.id
                 self.k.arrays[v.name] = v
+                v.alloc_loops = list(self.loops)
+                self.k.events.append(('alloc', v))
             self.env[t.id] = v
             return
         if isinstance(t, (ast.Tuple, ast.List)):
@@ -1015,7 +1023,11 @@ class Interp:
         else:
             key = (arr.name, tuple(i.canon_key() for i in idx))
             self.cells[key] = (value if isinstance(value, Rat) else None, tuple(cond_key(x) for x in self.guards), len(self.loops))
-        self.k.stores.append(Store(arr, idx, value, list(self.guards), list(self.loops), node))
+        st = Store(arr, idx, value, list(self.guards), list(self.loops), node)
+        st.seq = self.fresh      # reads (cell? serial) made later carry a larger number
+        self.fresh += 1
+        self.k.stores.append(st)
+        self.k.events.append(('store', st))
 
     def st_If(self, s):
         c = self.cond_of(self.ev(s.test), s)
